@@ -96,28 +96,28 @@ theorem CpSteps.trans {a b c : CpEnv} (h1 : CpSteps a b) (h2 : CpSteps b c) : Cp
   | tail _ t ih => exact .tail ih t
 
 theorem handle_steps (e : CpEnv) : CpSteps e (e.withS e.s.handle.1) := by
-  rcases Cp.handle_cases e.s with h | ⟨m, rest, hf, hd, hn, hk, h | h | h⟩ | ⟨m, rest, b, hf, hd, hn, hk, hb, h⟩
+  rcases Cp.handle_cases e.s with h | ⟨m, rest, hf, hd, hn, hk, h | h | h⟩ | ⟨m, rest, hf, hd, hn, hk, hb, h⟩
   · rw [h]; exact .refl e
   · obtain ⟨k, hkn, hcap, h⟩ := h
     rw [h]; exact .single (.flushFault e m rest k hf hd hn hk hkn hcap)
   · obtain ⟨hpos, h⟩ := h
     rw [h]; exact .single (.flushOk e m rest hf hd hn hk hpos)
-  · obtain ⟨hz, b, hb, h⟩ := h
-    rw [h]; exact .single (.flushZero e m rest b hf hd hn hk hz hb)
-  · rw [h]; exact .single (.copy e m rest b hf hd hn hk hb)
+  · obtain ⟨hz, hb, h⟩ := h
+    rw [h]; exact .single (.flushZero e m rest true hf hd hn hk hz (by simp [hb]))
+  · rw [h]; exact .single (.copy e m rest true hf hd hn hk (by simp [hb]))
 
 theorem dmaRsp_steps (e : CpEnv) : CpSteps e (e.withS e.s.dmaRsp.1) := by
-  rcases Cp.dmaRsp_cases e.s with h | ⟨c, rest, hf, hd, ⟨o, k, b, hl, hb, h⟩ | ⟨hH, hD, h⟩⟩
+  rcases Cp.dmaRsp_cases e.s with h | ⟨c, rest, hf, hd, hb, ⟨o, k, hl, h⟩ | ⟨hH, hD, h⟩⟩
   · rw [h]; exact .refl e
-  · rw [h]; exact .single (.done e c rest o k b hf hd hl hb)
+  · rw [h]; exact .single (.done e c rest o k true hf hd hl (by simp [hb]))
   · rw [h]; exact .single (.never e c rest hf hd hH hD)
 
 theorem cacheRsp_steps (e : CpEnv) : CpSteps e (e.withS e.s.cacheRsp.1) := by
-  rcases Cp.cacheRsp_cases e.s with h | ⟨x, rest, n', hf, hd, hn, ⟨hz, h⟩ | ⟨hz, hc, h⟩ | ⟨hz, f, b, hc, hb, h⟩⟩
+  rcases Cp.cacheRsp_cases e.s with h | ⟨x, rest, n', hf, hd, hn, ⟨hz, h⟩ | ⟨hz, hc, h⟩ | ⟨hz, f, hc, hb, h⟩⟩
   · rw [h]; exact .refl e
   · rw [h]; exact .single (.ackDec e x rest n' hf hd hn hz)
   · rw [h]; exact .single (.nilderef e x rest n' hf hd hn hz hc)
-  · rw [h]; exact .single (.ackFinal e x rest n' f b hf hd hn hz hc hb)
+  · rw [h]; exact .single (.ackFinal e x rest n' f true hf hd hn hz hc (by simp [hb]))
 
 theorem pass_steps (e : CpEnv) : CpSteps e (e.withS e.s.pass.1) := by
   have h1 := handle_steps e
